@@ -180,16 +180,18 @@ impl<'a, 'ast> Visit<'ast> for FnInfo<'a> {
     }
     fn visit_expr_method_call(&mut self, e: &'ast syn::ExprMethodCall) {
         let (a, b) = self.src.span(e.span());
+        let args: Vec<Value> = e.args.iter().map(|x| { let (s, t) = self.src.span(x.span()); json!({"start": s, "end": t}) }).collect();
         self.calls.push(json!({"name": e.method.to_string(), "start": a, "end": b, "stmt": self.cur_stmt(),
-            "in_closure": self.depth_closure > 0}));
+            "in_closure": self.depth_closure > 0, "args": args, "method": true}));
         syn::visit::visit_expr_method_call(self, e);
     }
     fn visit_expr_call(&mut self, e: &'ast syn::ExprCall) {
         if let syn::Expr::Path(p) = &*e.func {
             if let Some(seg) = p.path.segments.last() {
                 let (a, b) = self.src.span(e.span());
+                let args: Vec<Value> = e.args.iter().map(|x| { let (s, t) = self.src.span(x.span()); json!({"start": s, "end": t}) }).collect();
                 self.calls.push(json!({"name": seg.ident.to_string(), "start": a, "end": b, "stmt": self.cur_stmt(),
-                    "in_closure": self.depth_closure > 0}));
+                    "in_closure": self.depth_closure > 0, "args": args, "method": false}));
             }
         }
         syn::visit::visit_expr_call(self, e);
